@@ -205,18 +205,24 @@ def engCaseRun (c : EngCase) : String :=
     let e0 : Eng := if c.mode = "long"
       then { vm := newVmSt cfg (St.new cfg.flagCount) (freshCache cfg) {}, explicitState := true }
       else restore env cfg none {}
-    let (_, outs, _) := c.inputs.foldl (fun (acc : Eng × List String × Bool) input =>
-      let (e, outs, stopped) := acc
-      if stopped then (e, outs ++ ["stopped"], true) else
+    let (_, outs, _, _) := c.inputs.foldl (fun (acc : Eng × List String × Bool × Bool) input =>
+      let (e, outs, stopped, stored) := acc
+      if stopped then (e, outs ++ ["stopped"], true, stored) else
+      -- mode lp: an engine that is not initialised yet prepares itself again and thereby reloads what its persister
+      -- stored at the first preparation - the state of a new session: it is a new engine (same logs)
+      -- (the reload is part of `prepare`, which a request refused for its format does not reach)
+      let fmtOk := input.isEmpty || matchesInput input
+      let e := if c.mode = "lp" && !e.initd && e.prepared && fmtOk then restore env cfg none e.vm.ghost else e
       let nc := e.vm.ghost.calls.length
       let nl := e.vm.ghost.lookups.length
       let nm := e.vm.ghost.moves.length
       let (r, e') := request env cfg e input
-      -- mode lp: until the engine has been prepared the persister holds no state
-      let shown := if c.mode = "lp" && !e'.prepared
+      -- mode lp: until the engine has been prepared for the first time the persister holds no state
+      let stored := stored || e'.prepared
+      let shown := if c.mode = "lp" && !stored
         then s!"nostate cl={callsOut e'.vm.ghost nc} lk={lookupsOut e'.vm.ghost nl}"
         else stateOut e' nc nl nm
-      (e', outs ++ [reqOutStr r ++ " " ++ shown], r.x = "panic" || r.f = "panic")) (e0, [], false)
+      (e', outs ++ [reqOutStr r ++ " " ++ shown], r.x = "panic" || r.f = "panic", stored)) (e0, [], false, false)
     " # ".intercalate outs
   else
     let (_, _, outs, _) := c.inputs.foldl (fun (acc : Option Snap × Ghost × List String × Bool) input =>
